@@ -229,4 +229,21 @@ CONFIG = {
         "quick": {"checks": 400, "shards": 8},
         "thorough": {"checks": 15000, "shards": 16, "timeout": 7200},
     },
+    "C11": {
+        "rule": "rapid properties per row shape (RowA: string,bool,int8..int64,int; RowB: uint8..uint64,uint,float32,float64; RowC: time in the default and a tagged format, renamed headers "
+                "containing a comma and quotes; RowD: single column; asset.Snapshot): 0-8 rows with strings over an alphabet rich in , \" LF CR blanks tabs non-ASCII, extreme integers, "
+                "floats over the whole bit space incl. +-Inf, -0, subnormals, NaN (compared as NaN), UTC times at the format's granularity; a permutation of the header columns plus 0-2 "
+                "foreign columns (file re-shuffled with encoding/csv); a history of 1-5 WriteToFile / AppendToFile / AppendOrWriteToCsvFile calls on one path checked against a list "
+                "model after each call (long-then-short rewrites included); JSON: JSONToChan(ChanToJSON(x)) for int64, finite float64, valid UTF-8 strings and snapshots. Oracle: "
+                "read-back rows identical (floats bitwise, times by instant). Non-trivial: a row needing quoting or a float of >= 17 digits. The two recorded encoding/csv losses (CR LF "
+                "in a field, lone empty field) are excluded by construction (counted) and re-confirmed by a fixed witness every run. Thorough adds native coverage-guided fuzzing "
+                "of the row codecs through rapid.MakeFuzz.",
+        "technique": "round-trip property-based testing (rapid) with a file list model for write/append histories; native go fuzzing (rapid.MakeFuzz) in thorough",
+        "level_text": "Round-trip identity over every supported kind with values outside the fixtures (quoting, extremes, last-bit floats), header permutations with foreign columns, and generated write/append histories on one file against a list model. Sampling; thorough adds coverage-guided fuzzing of the same oracles.",
+        "level_note": "Header-less writing and appending to a missing file are outside the statement and not exercised. Times are UTC (the formats carry no zone).",
+        "assumptions": ["times are UTC at the format's granularity; JSON floats are finite and strings valid UTF-8"],
+        "gomaxprocs": [2],
+        "quick": {"checks": 600, "shards": 8},
+        "thorough": {"checks": 20000, "shards": 16, "timeout": 7200, "fuzz": [("FuzzCsvRowA", 60), ("FuzzCsvRowB", 60), ("FuzzCsvRowC", 60)]},
+    },
 }
